@@ -185,6 +185,18 @@ func TestVerifC05(t *testing.T) {
 				}
 				return
 			}
+			// An iteration runs several state handlers: leaving maintenance re-learns the master and
+			// writes the master key, then the same iteration goes on as manager. What was sampled
+			// when the iteration began is about the OLD recorded master: nothing to judge against.
+			for _, m := range s.zk.MutSnapshot()[r.mut0:r.mut1] {
+				if m.Client == r.p.id && m.Path == simNS+"/"+pathMasterNode && !m.At.After(now) {
+					var nm string
+					if json.Unmarshal(m.Data, &nm) == nil && nm != r.masterBefore {
+						c.Class("master-re-learned-inside-the-iteration(skipped)")
+						return
+					}
+				}
+			}
 			// the iteration itself may have rewritten the active list (leaving maintenance) before deciding
 			for _, m := range s.zk.MutSnapshot()[r.mut0:r.mut1] {
 				if m.Client == r.p.id && m.Path == simNS+"/"+pathActiveNodes && !m.At.After(now) {
